@@ -25,6 +25,7 @@ let check (fields : sexp list) : verdict * string option =
   let limit = z_of (field1 "limit" fields) in
   let oids = List.map z_of (field "oids" fields) in
   let chunks = List.map b_of (field "chunks" fields) in
+  (* "fail": CopyFail; "over": an oversized message — both end the copy with an error where they stand *)
   let ending = if atom (field1 "ending" fields) = "done" then EDone else EAbort in
   let o = field "obs" fields in
   let rows = List.map row_of (field "rows" o) in
@@ -45,6 +46,8 @@ let check (fields : sexp list) : verdict * string option =
     | _ -> true) in
   if panicked then (OracleFail "the server panicked while reading binary COPY data", None)
   else if hang then (OracleFail "the connection did not end", None)
+  else if (match List.filter_map (function L [A "must"; A m] -> Some m | _ -> None) fields with "err" :: _ -> true | _ -> false) && final <> "err" then
+    (OracleFail ("a stream cut inside a row, or interrupted by a message above the limit, was reported as complete: " ^ impl_s), None)
   else if not expect_ok then (OracleFail ("the rows returned differ from the rows the client encoded: " ^ impl_s), None)
   else if not same_as_first then (OracleFail ("another split of the same stream into CopyData messages gives a different result: " ^ impl_s ^ "  vs  " ^ (Hashtbl.find first_of_group group)), None)
   else
